@@ -37,5 +37,7 @@ def run(P, R, L):
     K.src2_lookup_candidates(P, R, L)
     R.clause("GRD-17", "a flushed table is placed below level 0 only while nothing in level 0 or in the next level overlaps its range")
     K.grd17_memtable_output_level(P, R, L)
+    R.clause("OWN-11", "the table cache looks up, opens and caches a table under the one file number that was asked for")
+    K.own11_table_cache_key(P, R, L)
     R.not_decided += ["that orderings / binary searches compute the right index for every key set", "sequence-number arithmetic across reopen",
                       "option changes between reopens"]
